@@ -694,6 +694,8 @@ pub fn shape_corpus() -> Vec<(String, PDU)> {
         ("eof-error", Box::new(|_| (PDUPayload::Directive(Operations::EoF(EndOfFile { condition: Condition::FileStoreRejection, checksum: 0x01020304, file_size: 77, fault_location: Some(VariableID::U16(0x0a0b)) })), SegmentedData::NotPresent))),
         ("finished-plain", Box::new(|_| (PDUPayload::Directive(Operations::Finished(Finished { condition: Condition::NoError, delivery_code: DeliveryCode::Complete, file_status: FileStatusCode::Retained, filestore_response: vec![], fault_location: None })), SegmentedData::NotPresent))),
         ("finished-responses", Box::new(|_| (PDUPayload::Directive(Operations::Finished(Finished { condition: Condition::NoError, delivery_code: DeliveryCode::Incomplete, file_status: FileStatusCode::Unreported, filestore_response: vec![fs_response(fs_statuses()[0], (5, 0, 3), 0), fs_response(fs_statuses()[9], (4, 6, 0), 1)], fault_location: None })), SegmentedData::NotPresent))),
+        // filestore responses that fill their TLV to the 254/255-octet limit
+        ("finished-long-response", Box::new(|_| (PDUPayload::Directive(Operations::Finished(Finished { condition: Condition::NoError, delivery_code: DeliveryCode::Complete, file_status: FileStatusCode::Retained, filestore_response: vec![fs_response(fs_statuses()[0], (250, 0, 0), 0), fs_response(fs_statuses()[9], (100, 151, 0), 0)], fault_location: None })), SegmentedData::NotPresent))),
         ("finished-error", Box::new(|_| (PDUPayload::Directive(Operations::Finished(Finished { condition: Condition::InactivityDetected, delivery_code: DeliveryCode::Incomplete, file_status: FileStatusCode::Discarded, filestore_response: vec![fs_response(fs_statuses()[30], (3, 0, 2), 0)], fault_location: Some(VariableID::U32(7)) })), SegmentedData::NotPresent))),
         ("ack-eof", Box::new(|_| (PDUPayload::Directive(Operations::Ack(PositiveAcknowledgePDU { directive: PDUDirective::EoF, directive_subtype_code: ACKSubDirective::Other, condition: Condition::NoError, transaction_status: TransactionStatus::Active })), SegmentedData::NotPresent))),
         ("ack-finished", Box::new(|_| (PDUPayload::Directive(Operations::Ack(PositiveAcknowledgePDU { directive: PDUDirective::Finished, directive_subtype_code: ACKSubDirective::Finished, condition: Condition::CancelReceived, transaction_status: TransactionStatus::Terminated })), SegmentedData::NotPresent))),
